@@ -796,18 +796,22 @@ class ODLEncoder(PVLEncoder):
         if value.utcoffset() == datetime.timedelta():
             return t + "Z"
         else:
-            td_str = str(value.utcoffset())
-            (h, m, s) = td_str.split(":")
-            if s != "00":
+            offset = value.utcoffset()
+            (minutes, s) = divmod(
+                abs(offset.days * 86400 + offset.seconds), 60
+            )
+            if s != 0 or offset.microseconds != 0:
                 raise ValueError(
                     "The datetime value had a timezone offset "
                     f"with seconds values ({value}) which is "
                     "not allowed in ODL."
                 )
-            if m == "00":
-                return t + f"+{h:0>2}"
+            sign = "-" if offset < datetime.timedelta(0) else "+"
+            (h, m) = divmod(minutes, 60)
+            if m == 0:
+                return t + f"{sign}{h:02d}"
             else:
-                return t + f"+{h:0>2}:{m}"
+                return t + f"{sign}{h:02d}:{m:02d}"
 
         return t
 
